@@ -282,6 +282,14 @@ func WorkerMain(t *testing.T) {
 			NonTriv: res.NonTrivial, Distinct: res.Distinct, Exh: res.Exhaustive, Stats: res.Stats, States: states}
 		if n <= 3 || len(res.Violations) > 0 {
 			line.Sample = res.Sample
+			if len(res.Trace) > 0 && line.Sample != nil {
+				k := len(res.Trace)
+				if k > 30 {
+					k = 30
+				}
+				line.Sample["trace_head"] = res.Trace[:k]
+				line.Sample["trace_events"] = len(res.Trace)
+			}
 		}
 		if fplog != nil {
 			ev := res.Evals
